@@ -197,9 +197,12 @@ package cbor
 
 //@ func cbor.Decoder.decodeArrayToStruct
 //@   params d rv additional
+//@   local indices = Phi#1 | Phi#2 | call:slices.Delete#1 | extract0:call:cbor.fieldOrder#1
+//@   local length = call:cbor.toU64#1
 //@   props C12 C10(sweep)
 //@   sweep bounds,make,nilmem
 //@   requires @len8 len(additional) <= 8
+//@   invariant loop#2: int(length) == len(indices)
 
 //@ func cbor.Decoder.decodeMap
 //@   params d rv additional
